@@ -1056,8 +1056,19 @@ func (c *TermCtx) Render(q *Query, wantModel bool) string {
 		sb.WriteString("))\n")
 	}
 	sb.WriteString("(check-sat)\n")
-	if wantModel {
-		sb.WriteString("(get-model)\n")
+	if wantModel && len(cnames) > 0 {
+		// values of the declared constants only (function inputs, abstract pre-state, havoc values)
+		sb.WriteString("(get-value (")
+		seenC := map[string]bool{}
+		for _, n := range cnames {
+			if seenC[n] {
+				continue
+			}
+			seenC[n] = true
+			sb.WriteString(smtSym(n))
+			sb.WriteByte(' ')
+		}
+		sb.WriteString("))\n")
 	}
 	return sb.String()
 }
